@@ -302,9 +302,9 @@ fn main() {
         // namespace / package positions for three names (thorough: every name)
         cases.extend(worlds::named_cases(&["fn", "self", "vec"], &["namespace", "package"], "names"));
     }
-    cases.extend(worlds::type_cases(true, false).into_iter().filter(|c| thorough || ["types:list", "types:result", "types:record-variant", "types:map"].contains(&c.id.as_str())));
+    cases.extend(worlds::type_cases(true, false).into_iter().filter(|c| thorough || ["types:list", "types:result", "types:record-variant", "types:map", "types:fixed-list", "types:future-stream"].contains(&c.id.as_str())));
     cases.extend(worlds::resource_cases().into_iter().filter(|c| thorough || c.id.ends_with(":my-big-thing2") || c.id == "resource:cross-interface"));
-    cases.extend(worlds::limit_cases().into_iter().filter(|c| thorough || ["limits:params16", "limits:params17", "limits:results"].contains(&c.id.as_str())));
+    cases.extend(worlds::limit_cases().into_iter().filter(|c| thorough || ["limits:params16", "limits:params17", "limits:results", "limits:async-funcs"].contains(&c.id.as_str())));
     cases.extend(worlds::kebab_cases().into_iter().filter(|c| thorough || c.id == "kebab:multi-word"));
     let n_class_a_enum = cases.len();
     let corpus = worlds::corpus_cases();
@@ -321,14 +321,9 @@ fn main() {
     }
 
     // Thorough runs in levels of growing bound and reports the deepest completed one:
-    //   1 = the quick world set with the full configuration factorial, 2 = + the rest of the
-    //   corpus, 3 = + the remaining enumerated worlds, per-position and extended-alphabet worlds.
-    let quick_enum: BTreeSet<&str> = [
-        "types:list", "types:result", "types:record-variant", "types:map", "resource:cross-interface",
-        "limits:params16", "limits:params17", "limits:results", "kebab:multi-word",
-    ]
-    .into_iter()
-    .collect();
+    //   1 = every enumerated world of the `all`-position / types / resources / limits / kebab
+    //   families + the quick corpus subset with the full configuration factorial, 2 = + the rest
+    //   of the corpus, 3 = + per-position and extended-alphabet name worlds.
     let quick_corpus: BTreeSet<String> = worlds::corpus_cases().into_iter().enumerate().filter(|(i, _)| i % 4 == 1).map(|(_, c)| c.id).collect();
     let level_of = |i: usize, c: &Case| -> usize {
         if !thorough {
@@ -337,10 +332,8 @@ fn main() {
             3
         } else if c.family == "corpus" {
             if quick_corpus.contains(&c.id) { 1 } else { 2 }
-        } else if c.family == "names" || quick_enum.contains(c.id.as_str()) || c.id.ends_with(":my-big-thing2") {
-            1
         } else {
-            3
+            1
         }
     };
     let full = RConfig::all();
@@ -486,7 +479,7 @@ fn main() {
         "rule": "distinct (world, configuration@edition) pairs with at least one import or export for which the generator produced bindings that were handed to rustc (whatever the verdict); `compared_worlds` counts those whose bindings + stubs compiled and whose world was compared (component world after ComponentEncoder, or extracted link names)",
         "compared_worlds": compared.len(),
         "exhaustive": std::env::var_os("VERIF_LIMIT").is_none() && only_level.is_none() && levels_skipped.is_empty(),
-        "levels": {"1": "quick world set x full configuration factorial (+ edition 2024 on the quick configurations)", "2": "+ rest of the corpus", "3": "+ remaining enumerated worlds (full factorial), per-position and extended-alphabet name worlds (quick configurations)"},
+        "levels": {"1": "all enumerated worlds (names in `all` position, types, resources, limits, kebab) + every 4th corpus entry x full configuration factorial (+ edition 2024 on the quick configurations)", "2": "+ rest of the corpus", "3": "+ per-position and extended-alphabet name worlds (quick configurations)"},
         "levels_completed": levels_completed,
         "levels_skipped_for_time": levels_skipped,
         "time_budget_s": budget_s,
